@@ -1010,6 +1010,57 @@ def matcher_sequences(ctx, b, quick):
     return not fails
 
 
+# ---------------------------------------------------------------------------------------------- aggregate exits (node ownership)
+def aggr_exit_stream(ctx, real, quick, ms_per_byte):
+    """every way out of the aggregate element loop, for every aggregate attribute, with 0..n elements: closing parenthesis,
+    end of input after element k, a bad delimiter after element k — read, written and destroyed under ASan (the node the
+    reader handed to the list must not have been freed)"""
+    tmpl, vals, kinds = ATTR_TEMPLATES[real.schema]
+    elems = {"LIST-OF-REAL": "1.5", "LIST-OF-LIST": "(1,2)", "SET-OF-ENTITY": "#1", "LIST-OF-STRING": "'a'", "LIST-OF-SELECT": "COUNT_T(3)",
+             "ARRAY-OF-ARRAY": "(1,2)", "DEFINED-LIST": "1.0", "SET-OF-LOGICAL": ".T.", "LIST-OF-BINARY": "\"1F\""}
+    sizes = [0, 1, 2, 3, 9] if quick else [0, 1, 2, 3, 4, 9, 64, 65, 300]
+    items, meta = [], []
+    for ai, kd in enumerate(kinds):
+        if kd not in elems:
+            continue
+        el = elems[kd]
+        for n in sizes:
+            shapes = [("closed", "(" + ",".join([el] * n) + ")", None)]
+            for k in sorted({1, n // 2, n} - {0}) if n else []:
+                for bad in (";", " x", "(", "/*c*/ y", "'"):
+                    shapes.append((f"bad delimiter {bad!r} after element {k}", "(" + ",".join([el] * k) + bad + ",".join([el] * (n - k)) + ")", None))
+                shapes.append((f"end of input after element {k}", "(" + ",".join([el] * k), "cut"))
+                shapes.append((f"end of input after the comma behind element {k}", "(" + ",".join([el] * k) + ",", "cut"))
+            shapes.append(("end of input after (", "(", "cut"))
+            for desc, val, cut in shapes:
+                v = list(vals); v[ai] = val
+                text = tmpl % ",".join(v)
+                if cut:
+                    text = text[:text.index(val) + len(val)]
+                d = text.encode("latin-1")
+                items.append(("x", budget_for(len(d), ms_per_byte), d)); meta.append((kd, n, desc))
+    t0 = time.time()
+    res = real.run_parallel(items, "aggr-" + real.schema)
+    fails = {}
+    for (kd, n, desc), (_, _, d), r in zip(meta, items, res):
+        ctx.count(1, key=("aggr", real.schema, d))
+        ctx.hist("aggregate exits", desc.split(" after")[0].split(" '")[0])
+        if r is not None and "fail" in r:
+            fails.setdefault((r["fail"], r["where"]), []).append((kd, n, desc, d, r))
+        elif r is not None and r["ord"] != 1:
+            fails.setdefault(("non-ordinary-severity", str(r["sev"])), []).append((kd, n, desc, d, dict(r, err="")))
+    ctx.cov["correspondence"][f"aggregate-exits/{real.schema}"] = {"inputs": len(items), "element counts": sizes, "failing": len(fails),
+                                                                   "wall_s": round(time.time() - t0, 1)}
+    for (kind, where), lst in sorted(fails.items(), key=lambda kv: str(kv[0])):
+        kd, n, desc, d, r = min(lst, key=lambda t: (t[1], len(t[3])))
+        pred = run_model(ctx, ["aggrown"])[0] if os.path.exists(ctx.model_exe("m_c05")) else None
+        ctx.violation(f"file:{kind}@{where}", f"{kind} in {where}: aggregate {kd} with {n} elements, {desc} (schema {real.schema}); "
+                      f"ownership model on the regenerated delete sites: {pred}",
+                      {"kind": "file", "schema": real.schema, "mode": "x", "mutation": f"{kd} x{n}: {desc}", "bytes_hex": d.hex(),
+                       "sanitizer": r.get("err", "")[-1500:]})
+    return not fails
+
+
 # ---------------------------------------------------------------------------------------------- entry points
 def setup(ctx):
     ctx.trusted += [
@@ -1091,6 +1142,7 @@ def run(ctx):
             function_level(ctx, real, quick, k)
         file_level(ctx, real, files, quick, ms_per_byte)
         attr_exhaustive(ctx, real, quick, ms_per_byte)
+        aggr_exit_stream(ctx, real, quick, ms_per_byte)
         if si == 0:
             ratio_stream(ctx, real, quick)
     mfut.result()
